@@ -394,10 +394,29 @@ func c01Run(c *core.Ctx, idx int) {
 			// uses): an empty engine to which every scanned rule is added.
 			eng = urlfilter.NewNetworkEngineSkipStorageScan(s)
 			sc := s.NewRuleStorageScanner()
+			var added []*rules.NetworkRule
 			for sc.Scan() {
 				r, idx := sc.Rule()
-				if nr, isNet := r.(*rules.NetworkRule); isNet {
-					eng.AddRule(nr, idx)
+				nr, isNet := r.(*rules.NetworkRule)
+				if !isNet {
+					continue
+				}
+				eng.AddRule(nr, idx)
+				added = append(added, nr)
+				// The engine is usable while it grows: asked in between, it
+				// answers for the rules added so far (and nothing it did then
+				// may stand in the way of the rules added later).
+				if c.Rng.Intn(12) == 0 && len(reqs) > 0 {
+					q := reqs[c.Rng.Intn(len(reqs))]
+					req := q.Build()
+					wq := c01Witness{Lists: contents, IDs: ids, Request: q}
+					if want, ok := c01Oracle(c, added, req, wq); ok {
+						var got []*rules.NetworkRule
+						if !c.Guard("NetworkEngine.MatchAll", nil, wq, func() { got = eng.MatchAll(req) }) {
+							c01Compare(c, "MatchAll(while rules are being added)", got, want, wq)
+						}
+					}
+					c.Event("queries_while_rules_are_being_added", 1)
 				}
 			}
 			c.Event("engines_built_by_AddRule", 1)
